@@ -58,64 +58,68 @@ def Roots.solveNormalizedCubic {α : Type} [Add α] [Sub α] [Mul α] [Div α] [
   let t109 := ((t101 * t101) + (t102 * t102))
   let t114 := (((t103 * t101) + ((0 : α) * t102)) / t109)
   let t116 := ((t98).1 + t114)
-  let t134 := (r / (3 : α))
-  let t135 := (t116 - t134)
-  let t136 := ((((-t116) / (2 : α)) + (((((t98).1 - t114) / (2 : α)) * (0 : α)) - ((((t98).2 - ((((0 : α) * t101) - (t103 * t102)) / t109)) / (2 : α)) * ((3900231685776981 : α) / (2251799813685248 : α))))) - t134)
-  let t137 := (sqrt t88)
-  let t138 := (t96 - t137)
-  let t139 := (copysign (1 : α) t138)
-  let t142 := (t139 * (pow (t139 * t138) t91))
-  let t147 := (t96 + t137)
-  let t148 := (copysign (1 : α) t147)
-  let t151 := (t148 * (pow (t148 * t147) t91))
+  let t124 := (((((t98).1 - t114) / (2 : α)) * (0 : α)) - ((((t98).2 - ((((0 : α) * t101) - (t103 * t102)) / t109)) / (2 : α)) * ((3900231685776981 : α) / (2251799813685248 : α))))
+  let t130 := ((-t116) / (2 : α))
+  let t136 := (r / (3 : α))
+  let t137 := (t116 - t136)
+  let t138 := ((t130 + t124) - t136)
+  let t139 := (sqrt t88)
+  let t140 := (t96 - t139)
+  let t141 := (copysign (1 : α) t140)
+  let t144 := (t141 * (pow (t141 * t140) t91))
+  let t149 := (t96 + t139)
+  let t150 := (copysign (1 : α) t149)
+  let t153 := (t150 * (pow (t150 * t149) t91))
   if t88 = (0 : α) then
     if t83 = (0 : α) then
       ((1 : Int), t90, t90, t90)
     else
-      ((2 : Int), t135, t136, (0 : α))
+      ((2 : Int), t137, t138, (0 : α))
   else
     if (0 : α) < t88 then
       if (0 : α) < t82 then
-        ((1 : Int), ((t142 + (t103 / ((3 : α) * t142))) - t134), (0 : α), (0 : α))
+        ((1 : Int), ((t144 + (t103 / ((3 : α) * t144))) - t136), (0 : α), (0 : α))
       else
-        ((1 : Int), ((t151 + (t103 / ((3 : α) * t151))) - t134), (0 : α), (0 : α))
+        ((1 : Int), ((t153 + (t103 / ((3 : α) * t153))) - t136), (0 : α), (0 : α))
     else
-      ((3 : Int), t135, t136, t136)
+      ((3 : Int), t137, t138, ((t130 - t124) - t136))
 
 /-- extracted from the C++ template at T = Sym; 12 path(s) -/
 def Roots.solveCubic {α : Type} [Add α] [Sub α] [Mul α] [Div α] [Neg α] [LT α] [DecidableLT α] [DecidableEq α] [OfNat α 0] [OfNat α 1] [OfNat α 2] [OfNat α 3] [OfNat α 4] [OfNat α 27] [OfNat α 2251799813685248] [OfNat α 3900231685776981] (sqrt : α → α) (pow : α → α → α) (copysign : α → α → α) (cpow : α → α → α → α × α) (csqrt : α → α → α × α) (a : α) (b : α) (cc : α) (d : α) : (Int × α × α × α) :=
   let t91 := ((1 : α) / (3 : α))
-  let t162 := ((cc * cc) - (((4 : α) * b) * d))
-  let t163 := (sqrt t162)
-  let t167 := ((-(cc + ((1 : α) * t163))) / (2 : α))
-  let t173 := ((-(cc + ((-(1 : α)) * t163))) / (2 : α))
-  let t179 := (cc / a)
-  let t180 := (b / a)
-  let t184 := ((((3 : α) * t179) - (t180 * t180)) / (3 : α))
-  let t192 := (((((((2 : α) * t180) * t180) * t180) / (27 : α)) - ((t180 * t179) / (3 : α))) + (d / a))
-  let t193 := (t184 / (3 : α))
-  let t194 := (t192 / (2 : α))
-  let t198 := (((t193 * t193) * t193) + (t194 * t194))
-  let t200 := ((-t180) / (3 : α))
-  let t201 := (csqrt t198 (0 : α))
-  let t205 := ((-t192) / (2 : α))
-  let t207 := (cpow ((t201).1 + t205) (t201).2 t91)
-  let t210 := ((t207).1 * (3 : α))
-  let t211 := ((t207).2 * (3 : α))
-  let t212 := (-t184)
-  let t218 := ((t210 * t210) + (t211 * t211))
-  let t223 := (((t212 * t210) + ((0 : α) * t211)) / t218)
-  let t224 := ((t207).1 + t223)
-  let t242 := (t180 / (3 : α))
-  let t243 := (t224 - t242)
-  let t244 := ((((-t224) / (2 : α)) + (((((t207).1 - t223) / (2 : α)) * (0 : α)) - ((((t207).2 - ((((0 : α) * t210) - (t212 * t211)) / t218)) / (2 : α)) * ((3900231685776981 : α) / (2251799813685248 : α))))) - t242)
-  let t245 := (sqrt t198)
-  let t246 := (t205 - t245)
-  let t247 := (copysign (1 : α) t246)
-  let t250 := (t247 * (pow (t247 * t246) t91))
-  let t255 := (t205 + t245)
-  let t256 := (copysign (1 : α) t255)
-  let t259 := (t256 * (pow (t256 * t255) t91))
+  let t165 := ((cc * cc) - (((4 : α) * b) * d))
+  let t166 := (sqrt t165)
+  let t170 := ((-(cc + ((1 : α) * t166))) / (2 : α))
+  let t176 := ((-(cc + ((-(1 : α)) * t166))) / (2 : α))
+  let t182 := (cc / a)
+  let t183 := (b / a)
+  let t187 := ((((3 : α) * t182) - (t183 * t183)) / (3 : α))
+  let t195 := (((((((2 : α) * t183) * t183) * t183) / (27 : α)) - ((t183 * t182) / (3 : α))) + (d / a))
+  let t196 := (t187 / (3 : α))
+  let t197 := (t195 / (2 : α))
+  let t201 := (((t196 * t196) * t196) + (t197 * t197))
+  let t203 := ((-t183) / (3 : α))
+  let t204 := (csqrt t201 (0 : α))
+  let t208 := ((-t195) / (2 : α))
+  let t210 := (cpow ((t204).1 + t208) (t204).2 t91)
+  let t213 := ((t210).1 * (3 : α))
+  let t214 := ((t210).2 * (3 : α))
+  let t215 := (-t187)
+  let t221 := ((t213 * t213) + (t214 * t214))
+  let t226 := (((t215 * t213) + ((0 : α) * t214)) / t221)
+  let t227 := ((t210).1 + t226)
+  let t235 := (((((t210).1 - t226) / (2 : α)) * (0 : α)) - ((((t210).2 - ((((0 : α) * t213) - (t215 * t214)) / t221)) / (2 : α)) * ((3900231685776981 : α) / (2251799813685248 : α))))
+  let t241 := ((-t227) / (2 : α))
+  let t247 := (t183 / (3 : α))
+  let t248 := (t227 - t247)
+  let t249 := ((t241 + t235) - t247)
+  let t250 := (sqrt t201)
+  let t251 := (t208 - t250)
+  let t252 := (copysign (1 : α) t251)
+  let t255 := (t252 * (pow (t252 * t251) t91))
+  let t260 := (t208 + t250)
+  let t261 := (copysign (1 : α) t260)
+  let t264 := (t261 * (pow (t261 * t260) t91))
   if a = (0 : α) then
     if b = (0 : α) then
       if cc = (0 : α) then
@@ -126,29 +130,29 @@ def Roots.solveCubic {α : Type} [Add α] [Sub α] [Mul α] [Div α] [Neg α] [L
       else
         ((1 : Int), ((-d) / cc), (0 : α), (0 : α))
     else
-      if (0 : α) < t162 then
+      if (0 : α) < t165 then
         if (0 : α) < cc then
-          ((2 : Int), (t167 / b), (d / t167), (0 : α))
+          ((2 : Int), (t170 / b), (d / t170), (0 : α))
         else
-          ((2 : Int), (t173 / b), (d / t173), (0 : α))
+          ((2 : Int), (t176 / b), (d / t176), (0 : α))
       else
-        if t162 = (0 : α) then
+        if t165 = (0 : α) then
           ((1 : Int), ((-cc) / ((2 : α) * b)), (0 : α), (0 : α))
         else
           ((0 : Int), (0 : α), (0 : α), (0 : α))
   else
-    if t198 = (0 : α) then
-      if t193 = (0 : α) then
-        ((1 : Int), t200, t200, t200)
+    if t201 = (0 : α) then
+      if t196 = (0 : α) then
+        ((1 : Int), t203, t203, t203)
       else
-        ((2 : Int), t243, t244, (0 : α))
+        ((2 : Int), t248, t249, (0 : α))
     else
-      if (0 : α) < t198 then
-        if (0 : α) < t192 then
-          ((1 : Int), ((t250 + (t212 / ((3 : α) * t250))) - t242), (0 : α), (0 : α))
+      if (0 : α) < t201 then
+        if (0 : α) < t195 then
+          ((1 : Int), ((t255 + (t215 / ((3 : α) * t255))) - t247), (0 : α), (0 : α))
         else
-          ((1 : Int), ((t259 + (t212 / ((3 : α) * t259))) - t242), (0 : α), (0 : α))
+          ((1 : Int), ((t264 + (t215 / ((3 : α) * t264))) - t247), (0 : α), (0 : α))
       else
-        ((3 : Int), t243, t244, t244)
+        ((3 : Int), t248, t249, ((t241 - t235) - t247))
 
 end ImathVerif.Gen
